@@ -225,7 +225,24 @@ class Gen:
         s = self.slots[slot]
         if f is None: f = self.rng.randrange(4)
         self.lines.append(f'sort {slot} {f}')
-        # order unknown to the shadow (unstable algorithm); only the multiset matters for later argument choices
+        # the shadow runs the same unstable algorithm (middle-pivot Lomuto quicksort), so that it stays exact: later argument choices (and
+        # staying out of known-finding territory, e.g. "assignf only into an EMPTY Tuple") depend on what each position holds
+        if s.kind in ('L', 'LS'): return                       # no Sort instance: ClassError
+        val = (lambda e: e[1]) if s.kind == 'T' else (lambda e: e)
+        key = lambda e: val(e) // 256
+        lt = [lambda a, b: val(a) < val(b), lambda a, b: key(a) < key(b), lambda a, b: key(a) > key(b), lambda a, b: key(a) <= key(b)][f]
+        a = s.items; stack = [(0, len(a) - 1)]
+        while stack:
+            l, r = stack.pop()
+            if not l < r: continue
+            p = l + (r - l) // 2
+            a[p], a[r] = a[r], a[p]
+            st = l
+            for i in range(l, r):
+                if lt(a[i], a[r]):
+                    a[i], a[st] = a[st], a[i]; st += 1
+            a[st], a[r] = a[r], a[st]
+            stack.append((l, st - 1)); stack.append((st + 1, r))
 
     def copy(self, dst, src):
         self.lines.append(f'copy {dst} {src}')
@@ -425,44 +442,62 @@ class C04(Spec):
     id = 'C04'; engine = 'seq'; harness = 'h_seq'; driver = 'drv_seq'
     generators = ()
     harness_timeout = 300
-    technique = ('Lean 4 proofs of refinement (per container type: every history of in-range operations refines List α; observations len/get/mem/'
-                 'iteration agree), of the quicksort (permutation; ordered for a strict weak order) and of the capacity invariant, about an '
-                 'executable model that mirrors Array.c / List.c / Tuple.c; the model is tied to the real code by white-box differential runs '
-                 '(element sequence, nitems, nslots, List links after every operation) and the code is searched for failing inputs with a '
-                 'reference-array oracle')
-    level_text = ('Theorems C04_refines_list_{array,list,tuple}: for every history of push, pop, push_at, pop_at, set, rem, concat, append, resize, '
-                  'sort, assign whose arguments are in range for the type, the model of the container holds exactly the abstract sequence, raises '
-                  'nothing, and len / get with positive and negative indices / mem / forward and backward iteration agree with it (Tuple: under '
-                  'distinct element pointers, known finding F13 otherwise; arguments not aliased with the target, known findings KF-C04-self-assign/-concat otherwise, '
-                  'each with a _refuted theorem on a concrete witness); C04_sort_perm and C04_sort_sorted: the middle-pivot Lomuto quicksort '
-                  'leaves a permutation, ordered for every strict weak order; C04_capacity: nitems <= nslots in every reachable Array state; '
-                  'rem deletes the first equal element. The model is compared with the real containers after every operation of thousands of '
-                  'generated histories (all index values, every growth and shrink step, duplicates, adversarial sort inputs).')
-    level_note = ('Trusted: Lean kernel; the hand-written model lean/Cello/Seq.lean + Sort.lean is tied to the C code by testing only (white-box '
-                  'differential runs), not by proof; element types in the correspondence are Int, String, a 12-byte and a 5-byte record type, heap Tuples of Int objects. Not covered: '
-                  'aliased arguments (concat/assign of a container with itself: known findings, modelled and refuted), stack Tuples, Terminal stored as an element, lengths >= 2^63, '
-                  'allocation failure.')
+    technique = ('Lean 4 proofs in two layers about an executable model that mirrors Array.c / List.c / Tuple.c. STORE level (what the driver runs and what is '
+                 'compared with the C representation): Array = block of record cells with memmove as an index-range copy and realloc as a new block, '
+                 'List = heap of prev/next/val nodes with List_Link / List_Unlink and the two-ended walk of List_At, Tuple = pointer cells ending in the '
+                 'Terminal cell; every cell / node access is checked (outcome ub otherwise). LIST level: the same operations as list surgery. Proved: '
+                 'per-operation simulation store -> list level for every history (so memmove = take/drop, relinking = insert/remove, prev-walk = reverse and '
+                 'nitems <= nslots are theorems about cells and links) and absence of ub; refinement list level -> List alpha for every in-range history with '
+                 'the observations len/get/mem/iteration; the quicksort (permutation; ordered for a strict partial order). The store-level model is tied to '
+                 'the real code by white-box differential runs (element sequence, nitems, nslots, List links both ways, Tuple block read to Terminal after '
+                 'every operation) under ASan/UBSan, and the code is searched for failing inputs with a reference-array oracle')
+    level_text = ('Theorems C04_store_{array,list,tuple}_simulates: from any store state that holds a list-level container, every history (in range or not) run on '
+                  'cells / links / the Terminal block ends in a state holding exactly what the list-level run ends in, with the same outcome; '
+                  'C04_store_*_never_ub: in every state reachable from a new container by any history the next operation reads no unwritten or out-of-block cell, '
+                  'follows no NULL link, touches no freed node, and nitems <= nslots / forward = reverse of backward / the block has len+1 cells; '
+                  'C04_refines_list_{array,list,tuple} and C04_store_refines_list_*: for every history of push, pop, push_at, pop_at, set, rem, concat, append, resize, '
+                  'sort, assign whose arguments are in range for the type, nothing is raised, the container holds exactly the abstract sequence, and len / get with '
+                  'positive and negative indices / mem / forward and backward iteration agree with it (Tuple iteration and mem: under distinct element pointers, '
+                  'known finding F13 otherwise, with C04_tuple_mem_before_cycle for what survives); C04_*_out_of_range: the abstract "in range" is exactly what the code accepts; '
+                  'C04_sort_perm / C04_sort_sorted: the middle-pivot Lomuto quicksort leaves a permutation, ordered for every strict partial order; C04_rem_first (all three types); '
+                  'aliased arguments: assign(x, x) changes nothing (C04_self_assign, since fix a3140e4; the old code refuted), concat(x, x) and an Array\'s own element '
+                  'passed to push / push_at are known findings with _statement / _refuted / _partial theorems, the latter derived from the cells '
+                  '(C04_store_push_own_element); assign from an iterator-only source (C04_assign_iter_*: Tuple appends - known finding); Terminal stored as a Tuple '
+                  'element and Tuples that are not on the heap (C04_tuple_terminal_element, C04_tuple_not_on_heap). The store-level model is compared with the real '
+                  'containers after every operation of thousands of generated histories (all index values, every growth and shrink step, duplicates, own elements as arguments, '
+                  'iterator-only sources, adversarial sort inputs).')
+    level_note = ('Trusted: Lean kernel; the hand-written store-level model lean/Cello/SeqStore.lean (+ Seq.lean, Sort.lean) is tied to the C code by testing only (white-box '
+                  'differential runs under ASan/UBSan), not by proof; element types in the correspondence are Int, String, a 12-byte and a 5-byte record type, heap Tuples of Int objects. '
+                  'Not covered by generated inputs: concat(x, x), an Array\'s own element where the Array must grow or k >= i, assign(Tuple, filter) on a non-empty Tuple (known findings, '
+                  'modelled, refuted, with witnesses), stack Tuples and Terminal stored as an element (theorems only), lengths >= 2^63, allocation failure.')
     rule = ('op files over 16 container slots of kinds Array<Int>, List<Int>, heap Tuple of Int objects, Array<String>, List<String>, Array<Rec12>, Array<Rec5> '
             '(file-scope record types of 12 and 5 bytes with their own Cmp and no Swap/Assign instance: default byte-wise swap and assign, rounded Array stride; '
             'each value is encoded redundantly in the whole record so that a record assembled from two elements is detected): '
-            '(a) random histories of all operations (indices uniform in -len..len-1 with 12% out of range, values from a 10-value domain / key*256+tag / wide), '
+            '(a) random histories of all operations (indices uniform in -len..len-1 with 12% out of range, values from a 10-value domain / key*256+tag / wide) including '
+            'assign(x, x), push(x, get(x, k)) / push_at(x, get(x, k), i) aimed at spare capacity and k < i, assign from filter(src, all|even|none), '
+            '(a\') index-locality histories with a silent oracle (#!quiet on), '
             '(b) growth sweeps push^n pop^n, front insertion and removal (every Reserve_More / Reserve_Less step up to n), '
             '(c) every index -len-2..len+2 for every length 0..L for push_at/pop_at/get/set and every kind, '
             '(d) sort inputs sorted/reversed/constant/runs/organ-pipe/few keys/many keys with 4 comparators (tags make instability visible), '
             '(e) long containers (quick 3000, thorough 20000; Tuple 600/2000) with operations at both ends and the middle, '
-            '(f) corpus files. After every op the harness dumps the concrete representation (compared with the Lean model line by line) and its '
-            'reference array checks contents, len, get for all (or sampled) positive and negative indices, mem, both iteration directions, '
-            'sort = ordered permutation, rem = first equal element, exceptions for out-of-range arguments. '
+            '(f) corpus files. After every op the harness dumps the concrete representation (compared line by line with the dump of the store-level Lean model: cells in use and '
+            'capacity, node chain with link check, cell block up to Terminal) and its reference array checks contents, len, get for all (or sampled) positive and negative indices, '
+            'mem, both iteration directions, sort = ordered permutation, rem = first equal element, exceptions for out-of-range arguments. The driver also evaluates the list-level '
+            'model and the abstract step on every op and prints an M line if store level, list level and specification ever disagree (they cannot: theorems). '
             'non-trivial item = an (operation line, observation) pair whose observation shows a non-empty container or an exception; distinct = distinct pair.')
-    trusted_base = ('lean/Cello/Seq.lean, lean/Cello/Sort.lean: hand-written model of Array.c, List.c, Tuple.c (tied to the code by the differential runs only)',
+    trusted_base = ('lean/Cello/SeqStore.lean (store level: cells / nodes / Terminal block), lean/Cello/Seq.lean, lean/Cello/Sort.lean: hand-written model of Array.c, List.c, Tuple.c '
+                    '(tied to the code by the differential runs only)',
                     'harness/h_seq.c + lean/Driver/Seq.lean (correspondence is testing; the reference array in the harness is the direct oracle)',
-                    'malloc/realloc/memmove (libc) are modelled as list surgery, not verified')
-    assumptions = ('arguments are not aliased: concat(x, x) and assign(x, x) are not generated and are refused as bad-op by harness and driver '
-                   '(known findings KF-C04-self-assign / KF-C04-self-concat: Array_Assign / List_Assign clear self before reading obj; concat of a '
-                   'container with itself iterates over storage it is growing); their witnesses run as `kfself` ops in a forked child',
+                    'malloc/realloc/memmove/free (libc) are modelled as block / cell-range / node operations with checked accesses, not verified; realloc is assumed to '
+                    'invalidate every pointer into the old block')
+    assumptions = ('concat(x, x) is not generated and is refused as bad-op by harness and driver (known finding KF-C04-self-concat: concat of a container with itself iterates '
+                   'over storage it is growing); its witnesses run as `kfself` ops in a forked child. assign(x, x) IS generated (repaired by a3140e4)',
+                   'an Array\'s own element as the argument of push / push_at is executed only outside known finding KF-C04-push-own-element (spare capacity, and k < i for '
+                   'push_at); inside it harness and driver both print own-refused; witnesses run as `kfown` ops in a forked child',
+                   'assign(t, filter(...)) is generated only for an empty Tuple t (known finding KF-C04-tuple-assign-iter: the items are appended to a non-empty Tuple)',
                    'Tuple elements are distinct objects (a Tuple holding the same pointer twice is known finding F13: iteration and mem do not terminate); '
-                   'ops that would store a pointer twice are refused by harness and driver alike',
-                   'Terminal is never stored as a Tuple element; Tuples are heap Tuples',
+                   'ops that would store a pointer a second time are refused by harness and driver alike (a pointer may replace itself with set)',
+                   'Terminal is never stored as a Tuple element; Tuples are heap Tuples (both cases are covered by theorems about the cell model only)',
                    'lengths and capacities stay below 2^63; allocation does not fail',
                    'List<String> is never grown by resize (List_Resize creates String elements with a NULL buffer that no String operation accepts)',
                    'element objects are not mutated while they are in a container')
@@ -513,6 +548,7 @@ class C04(Spec):
             m = re.search(r'err=(\w+)', o)
             if m: acc['exc_' + m.group(1)] = acc.get('exc_' + m.group(1), 0) + 1
             if 'dup-refused' in o: acc['dup_refused'] = acc.get('dup_refused', 0) + 1
+            if 'own-refused' in o: acc['own_refused'] = acc.get('own_refused', 0) + 1
             m = re.search(r'\| (\w+) n=(\d+)', o)
             if m:
                 acc['kind_' + m.group(1)] = acc.get('kind_' + m.group(1), 0) + 1
